@@ -74,6 +74,19 @@ func libPanicSites(f *ssa.Function, x *ssa.Call, posStr string) []*panicSite {
 	if _, ok := libPanicAllowed[name]; ok {
 		return nil
 	}
+	// panics that depend on one integer argument which is a non-negative constant here
+	switch name {
+	case "(*math/big.Int).Bit", "(*math/big.Int).SetBit", "strings.Repeat", "bytes.Repeat":
+		idx := 1
+		if name == "(*math/big.Int).SetBit" {
+			idx = 2
+		}
+		if idx < len(x.Call.Args) {
+			if k, ok := ssaConstInt(x.Call.Args[idx]); ok && k >= 0 {
+				return nil // "negative bit index" / "negative Repeat count" cannot arise
+			}
+		}
+	}
 	var as []string
 	for _, a := range x.Call.Args {
 		as = append(as, trimStr(apath(a), 40))
